@@ -464,6 +464,16 @@ pub fn c08(out: &mut Vec<String>, rng: &mut Rng, tier: &str) {
             out.push(format!("C08 kahan f {} => {}", toks.join(" "), kahan_prog::<f64>(&toks)));
         }
     }
+    // long one-sign streams of tiny magnitude: the running totals are normal numbers but the error terms
+    // (the compensation) are subnormal — they still carry the lost low-order parts
+    for (n, id, param32, param64) in [(100_000u64, 1u64, 1.1e-37f64, 1.3e-298f64), (60_000, 0, 3.0e-38, 7.0e-301), (200_000, 1, -2.3e-37, -4.1e-299)] {
+        for op in ["g", "H"] {
+            let t32: Vec<String> = vec!["E".into(), op.into(), format!("{}", id), format!("{}", rng.next() >> 1), param32.enc(), format!("{}", n), "q".into()];
+            out.push(format!("C08 kahan g {} => {}", t32.join(" "), kahan_prog::<f32>(&t32)));
+            let t64: Vec<String> = vec!["E".into(), op.into(), format!("{}", id), format!("{}", rng.next() >> 1), param64.enc(), format!("{}", n), "q".into()];
+            out.push(format!("C08 kahan f {} => {}", t64.join(" "), kahan_prog::<f64>(&t64)));
+        }
+    }
     // one register fed alternately by value and by (one-element) register
     for (n, id, param) in [(20_000u64, 1u64, 1.1f64), (1_000_000, 1, 1.1), (1_000_000, 2, 1.0), (200_000, 0, 0.1)] {
         if tier != "thorough" && n > 200_000 && id == 2 {
@@ -1026,6 +1036,14 @@ pub fn c09(out: &mut Vec<String>, rng: &mut Rng, tier: &str) {
         out.push(big_count_case::<f32, Paired<f32>>("paired", d, extra));
         out.push(big_count_case::<f64, Arithmetic<f64>>("arith", d, extra));
     }
+    // … and for more than 2^32 observations (beyond a 32-bit counter), every state type
+    for (d, extra) in [(32usize, 3usize), (33, 7), (31, 2)] {
+        out.push(big_count_case::<f64, Arithmetic<f64>>("arith", d, extra));
+        out.push(big_count_case::<f32, Arithmetic<f32>>("arith", d, extra));
+        out.push(big_count_case::<f64, Geometric<f64>>("geo", d, extra));
+        out.push(big_count_case::<f64, Harmonic<f64>>("harm", d, extra));
+        out.push(big_count_case::<f64, Paired<f64>>("paired", d, extra));
+    }
     // long chunks through extend / from_iter (more than a thousand observations per call)
     for (i, n) in [1024usize, 1025, 2050, 3000, 5000].iter().enumerate() {
         for kind in ["arith", "geo", "unpaired"] {
@@ -1083,6 +1101,10 @@ pub fn c09(out: &mut Vec<String>, rng: &mut Rng, tier: &str) {
 /// sample counts of very large states: a one-observation state doubled `d` times (`s = s + s` / `s += s`), then
 /// `extra` single appends; and the same doubled state merged with a chunk of `extra` observations
 pub fn big_count_case<F: FElem, S: Acc + Clone>(kind: &str, d: usize, extra: usize) -> String {
+    big_count_case_p::<F, S>("C09", kind, d, extra)
+}
+
+pub fn big_count_case_p<F: FElem, S: Acc + Clone>(prop: &str, kind: &str, d: usize, extra: usize) -> String {
     let one: Vec<String> = match kind {
         "paired" => vec![fenc::<F>(1.5), fenc::<F>(0.5)],
         "unpaired" => vec!["A".into(), fenc::<F>(1.5)],
@@ -1111,7 +1133,7 @@ pub fn big_count_case<F: FElem, S: Acc + Clone>(kind: &str, d: usize, extra: usi
         let first = |q: String| q.split(' ').next().unwrap_or("?").to_string();
         format!("{} {}", first(a.query(conf)), first(bq.query(conf)))
     });
-    format!("C09 count {} {} {} {} => {}", F::TAG, kind, d, extra, res)
+    format!("{} count {} {} {} {} => {}", prop, F::TAG, kind, d, extra, res)
 }
 
 pub fn fenc_pub<F: FElem>(x: f64) -> String {
